@@ -35,14 +35,21 @@ function partA(ctx) {
     report.evals()
     if (emptyRel) { report.count('A_empty_reference'); continue }
     if (d.length !== 2 || sd.length !== 1) { report.violation(`dependency queries for base=${JSON.stringify(base)} rel=${JSON.stringify(rel)} list ${JSON.stringify(d)} / ${JSON.stringify(sd)} (expected import+include and one script)`, { base, rel, suffix, deps: d, sdeps: sd }); continue }
-    if (d[0] !== d[1] || d[0] !== sd[0]) { report.violation(`import, include and wxs resolve the same reference differently: ${JSON.stringify(d)} / ${JSON.stringify(sd)}`, { base, rel, suffix }); continue }
+    // what remains of the written suffix after the one optional suffix has been ignored
+    const extT = suffix === '2' ? '.wxml' : suffix === '3' ? '.wxs' : ''
+    const extS = suffix === '2' ? '.wxs' : suffix === '3' ? '.wxml' : ''
+    const cut = (x, ext) => (ext && x.endsWith(ext) ? x.slice(0, -ext.length) : ext ? null : x)
+    if (d[0] !== d[1] || cut(d[0], extT) === null || cut(d[0], extT) !== cut(sd[0], extS)) { report.violation(`import, include and wxs resolve the same reference differently: ${JSON.stringify(d)} / ${JSON.stringify(sd)}`, { base, rel, suffix }); continue }
     // a referrer whose own last segment is `.` / `..` names a directory, not a file: its "directory" is not defined
     const baseLast = base.split('/').pop()
     if (hasEmpty(base) || hasEmpty(rel) || baseLast === '.' || baseLast === '..') { report.count('A_consistency_only'); continue }
-    const want = refResolve(base, rel)
-    if (d[0] !== want) report.violation(`base=${JSON.stringify(base)} rel=${JSON.stringify(rel)}${suffix === '1' ? ' (+suffix)' : ''} resolved to ${JSON.stringify(d[0])}, the normalised path is ${JSON.stringify(want)}`, { base, rel, suffix, got: d[0], want })
-    if (/(^|\/)\.\.?(\/|$)/.test(base + '/' + rel) || suffix === '1' || rel.startsWith('/')) report.shape('A|' + base + '|' + rel + '|' + suffix)
-    report.cell('A_pairs', rel.startsWith('/') ? 'absolute' : 'relative', suffix === '1' ? 'suffix' : 'plain')
+    // (a last segment `.`/`..` followed by a kept suffix is an ordinary name such as `..wxml`)
+    const relLast = rel.split('/').pop()
+    if (extT && (relLast === '.' || relLast === '..')) { report.count('A_consistency_only'); continue }
+    const want = refResolve(base, rel + extT)
+    if (d[0] !== want) report.violation(`base=${JSON.stringify(base)} rel=${JSON.stringify(rel)}${['', ' (+suffix)', ' (+suffix twice)', ' (+the other suffix)'][+suffix]} resolved to ${JSON.stringify(d[0])}, the normalised path is ${JSON.stringify(want)}`, { base, rel, suffix, got: d[0], want })
+    if (/(^|\/)\.\.?(\/|$)/.test(base + '/' + rel) || suffix !== '0' || rel.startsWith('/')) report.shape('A|' + base + '|' + rel + '|' + suffix)
+    report.cell('A_pairs', rel.startsWith('/') ? 'absolute' : 'relative', ['plain', 'suffix', 'suffix-twice', 'other-suffix'][+suffix])
   }
   report.count('A_pairs', n)
 }
